@@ -1670,7 +1670,8 @@ def tables_c18(run):
     for key, ex, cls in (('twist:Twist3.exp', 'trexp', 'SE3'), ('twist:Twist2.exp', 'trexp2', 'SE2')):
         f = run.prog.func(key)
         fi = FuncInfo.of(f)
-        pats = ['%s(%s(self.S * theta))' % (cls, ex), '%s([%s(self.S * t) for t in theta])' % (cls, ex),
+        pats = ['%s(%s(self.S * theta))' % (cls, ex), '%s([%s(S * theta) for S in self.data])' % (cls, ex),
+                '%s([%s(self.S * t) for t in theta])' % (cls, ex),
                 '%s([%s(S * t) for S, t in zip(self.data, theta)])' % (cls, ex)]
         bad = []
         n = 0
@@ -1837,6 +1838,49 @@ def tables_c14(run):
 
 
 # =========================================================================== C06 applying a pose to points
+def _matmul_roles(e, roles):
+    """every `a @ b` inside e with the role ('pose' / 'point' / None) of each factor; roles flow through attribute access
+    (.A, .T, .data), e2h/h2e/getvector/flatten and comprehension targets (including zip)"""
+    out = []
+
+    def role(x, env):
+        if isinstance(x, ast.Name):
+            return env.get(x.id)
+        if isinstance(x, ast.Attribute) and x.attr in ('A', 'T', 'data', '_A'):
+            return role(x.value, env)
+        if isinstance(x, ast.Call):
+            if isinstance(x.func, ast.Name) and x.func.id in ('e2h', 'h2e', 'getvector', 'array', 'asarray') and x.args:
+                return role(x.args[0], env)
+            if isinstance(x.func, ast.Attribute) and x.func.attr in ('flatten', 'reshape'):
+                return role(x.func.value, env)
+        if isinstance(x, ast.BinOp) and isinstance(x.op, ast.MatMult):
+            a, b = role(x.left, env), role(x.right, env)
+            return b if a == 'pose' else None
+        return None
+
+    def walk(x, env):
+        if isinstance(x, ast.ListComp):
+            env = dict(env)
+            for g in x.generators:
+                it = g.iter
+                if isinstance(it, ast.Call) and isinstance(it.func, ast.Name) and it.func.id == 'zip' and isinstance(g.target, ast.Tuple) \
+                        and len(g.target.elts) == len(it.args):
+                    for t, a in zip(g.target.elts, it.args):
+                        if isinstance(t, ast.Name):
+                            env[t.id] = role(a, env)
+                elif isinstance(g.target, ast.Name):
+                    env[g.target.id] = role(it, env)
+            walk(x.elt, env)
+            return
+        if isinstance(x, ast.BinOp) and isinstance(x.op, ast.MatMult):
+            out.append((x, (role(x.left, env), role(x.right, env))))
+        for c in ast.iter_child_nodes(x):
+            walk(c, env)
+
+    walk(e, dict(roles))
+    return out
+
+
 def tables_c06(run):
     f = run.prog.func('super_pose:SMPose.__mul__')
     fi = FuncInfo.of(f)
@@ -1901,6 +1945,21 @@ def tables_c06(run):
     for k, ok in found.items():
         if not ok:
             run.error('R16: SMPose.__mul__: route "%s" has no recognised form' % k)
+    # operand order of every matrix product in the operator: the pose matrix is the LEFT factor and the point the right one
+    # (p @ R computes R^T p, the inverse rotation)
+    n_mm = 0
+    for (r, e) in rets:
+        for (mm, roles) in _matmul_roles(e, {'left': 'pose', 'right': 'point', 'v': 'point'}):
+            n_mm += 1
+            lk, rk = roles
+            construct = 'product ' + src(mm, 40)
+            if lk == 'point' and rk == 'pose':
+                run.violation(RULE, f.key, construct, 'the point is the LEFT factor and the pose matrix the right one: p @ R is (R^T p)^T, the '
+                              'inverse rotation applied to the point', f=f, node=r)
+            elif lk == 'pose' and rk in ('point', 'pose'):
+                run.holds(RULE, f.key, construct, 'pose matrix on the left, %s on the right' % rk, f=f, node=r)
+    if n_mm < 8:
+        run.error('R16: SMPose.__mul__: only %d matrix products classified (expected >= 8)' % n_mm)
     # array chain ends in raise
     from ..astutil import if_chain, ends_in_raise
     ok_raise = False
@@ -2058,6 +2117,34 @@ def tables_c04(run):
     okd = any(nmq.poly(e) == nmq.poly(parse_expr('0.5 * Quaternion.Pure(real.t) * UnitQuaternion(real.R)')) for e in vals.get('dual', []))
     (run.holds if okr else run.violation)(rule, g.key, 'real part', 'real = UnitQuaternion(T.R)' if okr else 'real part is not UnitQuaternion(T.R)', f=g)
     (run.holds if okd else run.violation)(rule, g.key, 'dual part', 'dual = 0.5 * Pure(T.t) * real' if okd else 'dual part is not 0.5 * Pure(T.t) * real (operand order matters)', f=g)
+    # the (real, dual) pair given by the caller is stored as given: (r, d) and (-r, -d) are the same motion but (-r, d) is not,
+    # so a constructor that rewrites one member of the pair changes the motion
+    from ..cfg import reaching_defs
+    for key in ('DualQuaternion:UnitDualQuaternion.__init__', 'DualQuaternion:DualQuaternion.__init__'):
+        g = run.prog.func(key)
+        cfg = CFG(g.node)
+        IN, OUT = reaching_defs(cfg, g.allparams)
+        reach = cfg.reachable()
+        npair = 0
+        for node in cfg.nodes:
+            a = node.ast
+            if node.id not in reach or node.kind != 'stmt' or not isinstance(a, ast.Assign):
+                continue
+            t = a.targets[0]
+            if not (isinstance(t, ast.Attribute) and t.attr in ('real', 'dual') and isinstance(t.value, ast.Name) and t.value.id == g.selfname):
+                continue
+            if not (isinstance(a.value, ast.Name) and a.value.id in g.allparams):
+                continue
+            npair += 1
+            redefs = [cfg.nodes[d].ast for (nm, d) in IN.get(node.id, ()) if nm == a.value.id and d != cfg.entry.id]
+            if redefs:
+                run.violation(rule, key, 'pair integrity: self.%s' % t.attr, 'the caller-supplied %s part is rewritten (%s) before it is stored while '
+                              'the other part of the pair is not transformed the same way: (r, d) and (-r, d) are different rigid-body '
+                              'motions' % (a.value.id, src(redefs[0], 40)), f=g, node=a)
+            else:
+                run.holds(rule, key, 'pair integrity: self.%s' % t.attr, 'stored exactly as supplied', f=g, node=a)
+        if npair < 2:
+            run.error('R13: %s: the two-argument branch storing (real, dual) was not recognised' % key)
     # SE2 -> SE3 lift table
     g = run.prog.func('pose2d:SE2.SE3.<locals>.lift3')
     gi = FuncInfo.of(g)
@@ -2133,3 +2220,161 @@ def check_trlog_dependence(run, rule='R17'):
                           'with components of opposite sign is mapped to the wrong axis' % src(e, 70), f=f, node=r)
     if n < 4:
         run.error('R17: trlog: only %d non-trivial returns evaluated in the SO(3) branch (expected >= 4)' % n)
+
+
+# =========================================================================== double cover: q and -q are the same rotation
+QUAT_STATE = ('s', 'v', '_A', 'A', 'vec', 'vec_xyzs', 'data')
+EVEN_IN_Q = {'q2r': (0,), 'qvmul': (0,), 'qnorm': (0,), 'normsq': (0,), 'norm': (0,), 'abs': (0,), 'isunit': (0,)}
+DOUBLE_COVER = ['quaternion:UnitQuaternion.R', 'quaternion:UnitQuaternion.angvec', 'quaternion:UnitQuaternion.rpy',
+                'quaternion:UnitQuaternion.eul', 'quaternion:UnitQuaternion.SO3', 'quaternion:UnitQuaternion.SE3']
+
+
+class _NegQ(ast.NodeTransformer):
+    """replace the quaternion state of the receiver (and of elements iterated from it) by its negation"""
+
+    def __init__(self, objs):
+        self.objs = set(objs)       # names bound to unit-quaternion OBJECTS
+        self.elems = set()          # names bound to quaternion element ARRAYS
+
+    def visit_ListComp(self, n):
+        added_o, added_e = [], []
+        for g in n.generators:
+            it = g.iter
+            if isinstance(it, ast.Name) and it.id in self.objs and isinstance(g.target, ast.Name):
+                added_o.append(g.target.id)
+            elif isinstance(it, ast.Attribute) and isinstance(it.value, ast.Name) and it.value.id in self.objs and \
+                    it.attr in ('data', '_A', 'A') and isinstance(g.target, ast.Name):
+                added_e.append(g.target.id)
+        self.objs |= set(added_o)
+        self.elems |= set(added_e)
+        n.elt = self.visit(n.elt)
+        self.objs -= set(added_o)
+        self.elems -= set(added_e)
+        return n
+
+    def visit_Attribute(self, n):
+        if isinstance(n.value, ast.Name) and n.value.id in self.objs and n.attr in QUAT_STATE:
+            return ast.UnaryOp(op=ast.USub(), operand=n)
+        self.generic_visit(n)
+        return n
+
+    def visit_Name(self, n):
+        if isinstance(n.ctx, ast.Load) and n.id in self.elems:
+            return ast.UnaryOp(op=ast.USub(), operand=n)
+        return n
+
+
+class _EvenFold(ast.NodeTransformer):
+    """f(-x) -> f(x) for functions that are even in the listed argument"""
+
+    def visit_Call(self, n):
+        self.generic_visit(n)
+        if isinstance(n.func, ast.Name) and n.func.id in EVEN_IN_Q:
+            for i in EVEN_IN_Q[n.func.id]:
+                if i < len(n.args) and isinstance(n.args[i], ast.UnaryOp) and isinstance(n.args[i].op, ast.USub):
+                    n.args[i] = n.args[i].operand
+        return n
+
+
+def check_double_cover(run, keys=DOUBLE_COVER, rule='R16s'):
+    """A unit quaternion and its negative are the same rotation: every rotation-valued accessor of UnitQuaternion must
+    return the same value for q and -q. Decided on the normal form of each returned expression (all paths) under the
+    substitution (s, v, data) -> (-s, -v, -data), with q2r / qvmul / norms even in the quaternion."""
+    for key in keys:
+        cx = Ctx(run, key)
+        f = cx.f
+        rets = sl_eval(cx)
+        if not rets:
+            run.error('%s: %s: no value-returning path evaluated' % (rule, key))
+            continue
+        nm = Normaliser(rename=cx.rename, odd_funcs=('skew', 'sin', 'transl', 'vex', 'unitvec', 'q2v'))
+        for (r, e) in rets:
+            parts = e.elts if isinstance(e, ast.Tuple) else [e]
+            for i, part in enumerate(parts):
+                construct = 'q -> -q: ' + src(r.value, 50) + ('' if len(parts) == 1 else ' [component %d]' % i)
+                try:
+                    a = nm.poly(_EvenFold().visit(_copy.deepcopy(part)))
+                    neg = _NegQ([f.selfname]).visit(_copy.deepcopy(part))
+                    b = nm.poly(_EvenFold().visit(neg))
+                except Unrecognised as ex:
+                    run.error('%s: %s unrecognised: %s' % (rule, key, ex))
+                    continue
+                if a == b:
+                    run.holds(rule, key, construct, 'unchanged when the quaternion is negated (the rotation matrix q2r(q) is even in q)', f=f, node=r)
+                else:
+                    run.violation(rule, key, construct, 'the returned value changes when the unit quaternion is replaced by its negative '
+                                  '(%s becomes %s), although q and -q are the same rotation: quaternions with a negative scalar part '
+                                  'give a different answer from the rotation they represent' % (a, b), f=f, node=r)
+
+
+def check_sign_dependence(run, key, obj_attr, blind=('v', 'norm'), rule='R17', why=''):
+    """Information dependence: the value returned by `key` must depend on the SIGN of self.<obj_attr>.  Decided on the
+    normal form of every returned expression: if it is unchanged under self.attr -> -self.attr and every other read of
+    the receiver is sign-blind (listed in `blind`), the sign cannot influence the result."""
+    cx = Ctx(run, key)
+    f = cx.f
+    rets = sl_eval(cx)
+    if not rets:
+        run.error('%s: %s: no value-returning path evaluated' % (rule, key))
+        return
+    nm = Normaliser(rename=cx.rename)
+    for (r, e) in rets:
+        construct = 'sign of %s.%s in %s' % (f.selfname, obj_attr, src(r.value, 40))
+        try:
+            a = nm.poly(e)
+            b = nm.poly(_Neg(f.selfname, (obj_attr,)).visit(_copy.deepcopy(e)))
+        except Unrecognised as ex:
+            run.error('%s: %s unrecognised: %s' % (rule, key, ex))
+            continue
+        reads = {y.attr for y in ast.walk(e) if isinstance(y, ast.Attribute) and isinstance(y.value, ast.Name) and y.value.id == f.selfname}
+        if a != b:
+            run.holds(rule, key, construct, 'the normal form changes when the sign of %s is flipped: the result depends on it' % obj_attr, f=f, node=r)
+        elif reads <= set(blind) | {obj_attr}:
+            run.violation(rule, key, construct, 'the returned value reads the receiver only through %s, none of which carries the sign of %s '
+                          '(%s): %s' % (', '.join(sorted(reads)) or 'nothing', obj_attr, a, why), f=f, node=r)
+        else:
+            run.undecided(rule, key, construct, 'unchanged under %s -> -%s but other reads of the receiver (%s) may carry the sign'
+                          % (obj_attr, obj_attr, ', '.join(sorted(reads - set(blind)))), f=f, node=r)
+
+
+def check_column_branch_agreement(run, key, param, rule='R16'):
+    """A method with a single-point branch `return E(x)` and a per-column branch `return [E'(c) for c in x.T]` must apply the
+    same predicate: E'(c)[c := x] has the same normal form as E(x) (or is the method applied to the column with every
+    option passed on, which R10r decides)."""
+    cx = Ctx(run, key)
+    f = cx.f
+    rets = sl_eval(cx)
+    single = [(r, e) for (r, e) in rets if not isinstance(e, (ast.ListComp, ast.List)) and not (isinstance(e, ast.Call) and e.args and isinstance(e.args[0], ast.ListComp))]
+    multi = [(r, e) for (r, e) in rets if (r, e) not in single]
+    if len(single) != 1 or len(multi) != 1:
+        run.error('%s: %s: expected one single-point and one per-column return, found %d and %d' % (rule, key, len(single), len(multi)))
+        return
+    nm = Normaliser(rename=cx.rename)
+    e1 = single[0][1]
+    lc = multi[0][1]
+    if isinstance(lc, ast.Call):
+        lc = lc.args[0]
+    if not (isinstance(lc, ast.ListComp) and len(lc.generators) == 1 and isinstance(lc.generators[0].target, ast.Name)):
+        run.error('%s: %s: per-column branch is not a single comprehension' % (rule, key))
+        return
+    g = lc.generators[0]
+    if matches('%s.T' % param, g.iter) is None:
+        run.violation(rule, key, 'per-column branch iterates ' + src(g.iter, 30), 'the columns of the 3xN argument are %s.T; iterating %s '
+                      'visits rows' % (param, src(g.iter, 30)), f=f, node=multi[0][0])
+        return
+    elt = _Subst({g.target.id: ast.Name(id=param, ctx=ast.Load())}).visit(_copy.deepcopy(lc.elt))
+    construct = 'single-point and per-column branches'
+    if isinstance(elt, ast.Call) and isinstance(elt.func, ast.Attribute) and elt.func.attr == f.name and \
+            isinstance(elt.func.value, ast.Name) and elt.func.value.id == f.selfname:
+        run.holds(rule, key, construct, 'per-column branch applies the method itself to each column (options: R10r)', f=f, node=multi[0][0])
+        return
+    try:
+        a, b = nm.poly(e1), nm.poly(elt)
+    except Unrecognised as ex:
+        run.error('%s: %s unrecognised: %s' % (rule, key, ex))
+        return
+    if a == b:
+        run.holds(rule, key, construct, 'same predicate %s for a point and for each column' % a, f=f, node=multi[0][0])
+    else:
+        run.violation(rule, key, construct, 'a single point is tested with %s but each column of a 3xN array with %s: the same point gives '
+                      'different answers in the two forms' % (a, b), f=f, node=multi[0][0])
